@@ -179,6 +179,8 @@ type vkAAAAShape struct {
 	// SOA in authority: ttl, minimum (ttl<0 => none)
 	SOATTL, SOAMin int
 	EDE            int  // -1 none
+	EDEFirst       []int // further EDE options placed BEFORE EDE in the OPT
+	CookieFirst    bool  // a COOKIE option placed before any EDE
 	OPT            bool // attach OPT even without EDE
 	CachedMark     bool // request-tree cached-failure mark around the write
 	LocalMark      string
@@ -217,6 +219,13 @@ func vkAAAAShapes() []vkAAAAShape {
 	for _, code := range []int{1, 2, 5, 6, 7, 8, 9, 10, 11, 12, 27} {
 		s = append(s, vkAAAAShape{Name: fmt.Sprintf("servfail+ede%d", code), Rcode: dns.RcodeServerFailure, SOATTL: no, EDE: code})
 	}
+	// the DNSSEC EDE is not the first option of the OPT
+	s = append(s,
+		vkAAAAShape{Name: "servfail+ede22,6", Rcode: dns.RcodeServerFailure, SOATTL: no, EDE: 6, EDEFirst: []int{22}},
+		vkAAAAShape{Name: "servfail+ede23,0,9", Rcode: dns.RcodeServerFailure, SOATTL: no, EDE: 9, EDEFirst: []int{23, 0}},
+		vkAAAAShape{Name: "servfail+cookie,ede7", Rcode: dns.RcodeServerFailure, SOATTL: no, EDE: 7, CookieFirst: true},
+		vkAAAAShape{Name: "servfail+ede22,13", Rcode: dns.RcodeServerFailure, SOATTL: no, EDE: 13, EDEFirst: []int{22}},
+	)
 	return s
 }
 
@@ -267,7 +276,7 @@ type vkClient struct {
 
 var vkClients = []vkClient{{"c4-in", "198.51.100.7"}, {"c4-out", "192.0.2.77"}, {"c6-in", "2001:db8:c::1"}, {"c4-203", "203.0.113.9"}}
 
-var vkQNames = []string{"www.example.org.", "host.excluded.example.", "EXCLUDED.Example.", "notexcluded.example."}
+var vkQNames = []string{"www.example.org.", "host.excluded.example.", "EXCLUDED.Example.", "notexcluded.example.", "a.other.example."}
 
 type vkFlags struct {
 	RD, CD, AD bool
@@ -360,6 +369,12 @@ func vkBuildAAAA(sh vkAAAAShape, req *dns.Msg) *dns.Msg {
 		m.SetEdns0(1232, false)
 		if sh.EDE >= 0 {
 			opt := m.IsEdns0()
+			if sh.CookieFirst {
+				opt.Option = append(opt.Option, &dns.EDNS0_COOKIE{Code: dns.EDNS0COOKIE, Cookie: "0123456789abcdef0123456789abcdef"})
+			}
+			for _, c := range sh.EDEFirst {
+				opt.Option = append(opt.Option, &dns.EDNS0_EDE{InfoCode: uint16(c), ExtraText: "scripted-first"})
+			}
 			opt.Option = append(opt.Option, &dns.EDNS0_EDE{InfoCode: uint16(sh.EDE), ExtraText: "scripted"})
 		}
 	}
@@ -874,7 +889,7 @@ func TestVerifC20Handler(t *testing.T) {
 									if vk == k.key() {
 										nviol++ // class-keyed violations collapse by key and do not consume the cap
 									}
-									if nviol >= 5 {
+									if nviol >= 2 {
 										c.Add("evaluations", evals)
 										return
 									}
